@@ -185,13 +185,10 @@ fn oracle_cut(ctx: &mut Ctx, k: K, full: &Input, full_ans: &str, cut: usize, got
                 ctx.bump(&format!("tr_index:{name}:complete-without-optional-count"));
                 return;
             }
-            if k == K::Tbi && full.model.len() >= 8 && full.model[4..8] == [0, 0, 0, 0] {
-                // n_ref = 0 and a name block cut at a name boundary: nothing follows that would need
-                // another byte (theorem `tabix_truncate` asks for n_ref > 0; witness
-                // `tabix_cut_names_accepted_when_no_reference`)
-                ctx.bump("tr_index:tbi:n_ref-0-names-cut-accepted");
-                return;
-            }
+            // (no exception for tabix with n_ref = 0: since /repo `fix:` 125ecd7 a names block cut short by
+            // the end of the input is an error — theorem `tabix_truncate` holds without `0 < n_ref`,
+            // witness `tabix_cut_names_rejected_when_no_reference`; a reader that accepts the shorter name
+            // list delivers a DIFFERENT index)
             ctx.fail(&format!("fabricated:{}", k.class()), format!("{name}: the first {cut} of {} bytes were accepted as a DIFFERENT index: [{:.160}] for [{:.160}]", full.model.len(), g, f), case.into());
         }
         _ => {
@@ -395,7 +392,7 @@ fn tr_corpus() -> Vec<(K, Input)> {
     let mut bai2 = bai.clone();
     bai2.extend_from_slice(&7u64.to_le_bytes());
     v.push(t(K::Bai, &bai2));
-    // tabix: n_ref = 0 with two names — witness `tabix_cut_names_accepted_when_no_reference` —, and
+    // tabix: n_ref = 0 with two names — witness `tabix_cut_names_rejected_when_no_reference` —, and
     // n_ref = 1 with the same header
     for nref in [0u32, 1] {
         let mut p = b"TBI\x01".to_vec();
